@@ -527,3 +527,51 @@ func Harness_C02_reused_name_history() {
 	}
 	vm.Assert("C02.history_locks_free", v.Env.LocksFree())
 }
+
+// Harness_C02_directory_comes_back: MkdirAll of a two-level path, the path goes away (removed with its ancestor,
+// removed itself, renamed away itself or with its ancestor), MkdirAll of the same path again — compared with the
+// reference after every call; afterwards the path exists and an entry can be created below it.
+func Harness_C02_directory_comes_back() {
+	v := verifNewFS(config.PipeConfig{}, false, true)
+	v.rootOnly()
+	ref := &refFS{}
+	ref.add("/", true, 0o644)
+	step := func(what string, err error, want bool) bool {
+		vm.Assert("C02.comeback_success_iff_reference_succeeds."+what, (err == nil) == want)
+		if (err == nil) != want {
+			return false
+		}
+		agree := c02Agree(v, ref, false)
+		vm.Assert("C02.comeback_changes_what_reference_changes."+what, agree)
+		return agree
+	}
+	if !step("first", v.FS.MkdirAll("/a/b", 0o755), ref.mkdirAll("/a/b")) {
+		return
+	}
+	var err error
+	var want bool
+	switch vm.Choice("goesAway", 4) {
+	case 0:
+		err, want = v.FS.RemoveAll("/a"), ref.removeAll("/a")
+	case 1:
+		err, want = v.FS.Remove("/a/b"), ref.remove("/a/b")
+	case 2:
+		err, want = v.FS.Rename("/a/b", "/c"), ref.rename("/a/b", "/c")
+	case 3:
+		err, want = v.FS.Rename("/a", "/c"), ref.rename("/a", "/c")
+	}
+	if !step("away", err, want) {
+		return
+	}
+	if !step("again", v.FS.MkdirAll("/a/b", 0o755), ref.mkdirAll("/a/b")) {
+		return
+	}
+	st, serr := v.FS.Stat("/a/b")
+	vm.Assert("C02.comeback_directory_is_there", serr == nil && st.IsDir())
+	h, cerr := v.FS.Create("/a/b/f")
+	if cerr == nil {
+		cerr = h.Close()
+	}
+	step("create_below", cerr, ref.createMode("/a/b/f", false, true, 0o666))
+	vm.Assert("C02.comeback_locks_free", v.Env.LocksFree())
+}
